@@ -2,7 +2,7 @@
    pre-state), and judges the implementation's outputs with the specification oracles. *)
 From Coq Require Import Ascii String.
 From WF Require Import Base.Bytes Base.Utf8 Spec.Route Spec.Walk Spec.Grammar Spec.Oracles Spec.Registry Spec.Inv.
-From WF Require Import Model.Tree Model.Parser Model.Ops Model.Router Model.Display Model.Render Model.Constraints Model.Arcs Model.SearchC.
+From WF Require Import Model.Tree Model.Parser Model.Ops Model.Router Model.Display Model.Render Model.Constraints Model.Arcs Model.SearchC Model.OpsC.
 From WF Require Import Check.Tokens Check.Events.
 
 Inductive fkind :=
@@ -14,7 +14,7 @@ Inductive fkind :=
 | FWalkGenuine | FWalkMissed | FWalkPriority | FGreedy
 | FSpecInsert | FSpecDelete | FSpecConstraint
 | FNoop | FRoundtrip | FInterfere | FNotRouted | FSame | FDumpOf
-| FBuiltin | FOci | FOciModel | FOciName | FUnknownRouter | FArcs | FSplitChar | FIndexSearch | FOciE2E.
+| FBuiltin | FOci | FOciModel | FOciName | FUnknownRouter | FArcs | FSplitChar | FIndexSearch | FOciE2E | FIndexOps.
 
 Definition finding := (fkind * list bytes)%type.
 
@@ -437,6 +437,8 @@ Definition check_insert (x : rst) (t : bytes) (d : N) (r : result insert_err uni
   let fs :=
     match r with RPanic _ => [(FPanic, [t])] | _ => [] end
     ++ fl (result_eqb ierr_eqb (fun _ _ => true) mres r) FOpsInsert [t]
+    ++ (let '(mc', mcres) := rinsert_c pre t d in
+        fl (result_eqb ierr_eqb (fun _ _ => true) mcres r && node_eqb (r_root mc') dump && flags_eqb (r_root mc') dump) FIndexOps [t])
     ++ f_spec ++ f_render
     ++ fl (node_eqb (r_root m') dump) FTree [t]
     ++ fl (flags_eqb (r_root m') dump) FFlags [t]
@@ -485,6 +487,8 @@ Definition check_delete (x : rst) (t : bytes) (r : result delete_err N) (rendere
   let fs :=
     match r with RPanic _ => [(FPanic, [t])] | _ => [] end
     ++ fl (result_eqb derr_eqb N.eqb mres r) FOpsDelete [t]
+    ++ (let '(mc', mcres) := rdelete_c pre t in
+        fl (result_eqb derr_eqb N.eqb mcres r && node_eqb (r_root mc') dump && flags_eqb (r_root mc') dump) FIndexOps [t])
     ++ f_spec ++ f_render ++ f_round
     ++ fl (node_eqb (r_root m') dump) FTree [t]
     ++ fl (flags_eqb (r_root m') dump) FFlags [t]
